@@ -30,10 +30,7 @@ theorem limitReport_eq (carrier : Carrier) (m : Module) (conversion : Name) (dt 
   cases hc : calcLimits (convOf m conversion) dt with
   | none => rfl
   | some cl =>
-    cases carrier <;> simp only <;>
-      first
-        | (cases hv : limitsValid (lower, upper) cl <;> simp [hv])
-        | (cases hv : limitsValidStrict (lower, upper) cl <;> simp [hv])
+    cases hv : limitsValid (lower, upper) cl <;> simp [hv]
 
 /-- the conversion a name stands for: the FIRST COMPU_METHOD of that name; absent for a name that does not resolve (this
     includes `NO_COMPU_METHOD` unless a COMPU_METHOD is literally called so) -/
@@ -49,7 +46,7 @@ theorem measurement_limit_test (x : Measurement) (m : Module) :
       limitReport .measurement m x.conversion x.datatype x.name (s "MEASUREMENT") x.lower x.upper ++
       checkRefMemorySegment m x.refMemorySegment ++ checkFunctionList m x.functionList := rfl
 
-/-- TYPEDEF_MEASUREMENT: own data type, own conversion, comparison without tolerance -/
+/-- TYPEDEF_MEASUREMENT: own data type, own conversion, the same tolerant comparison -/
 theorem typedef_measurement_limit_test (x : Measurement) (m : Module) :
     checkTypedefMeasurement x m =
       missingUnless (s "NO_COMPU_METHOD") (s "TYPEDEF_MEASUREMENT") x.name (s "COMPU_METHOD") x.conversion m.compuMethodNames ++
